@@ -1365,7 +1365,9 @@ func c19Vectors(scratch string, thorough bool) []Vec {
 		"lease_time":    {"3600s", "0s", "-5s", "2562047h", "4294967296s", "1.5h", "abc", "10"},
 		"ipv6only":      {"3600s", "0s", "-5s", "2562047h", "4294967296s", "abc"},
 		"autoconfigure": {"0", "1", "2", "AutoConfigure", "DoNotAutoConfigure", "autoconfigure", ""},
-		"searchdomains": {"example.com", long63, long64, long200, long300, "", ".", "a..b", "exa mple", "\xff\xfe.com"},
+		"searchdomains": {"example.com", long63, long64, long200, long300, "", ".", "a..b", "exa mple", "\xff\xfe.com",
+			// labels counted in characters are not labels counted in octets
+			strings.Repeat("\u00e9", 31) + ".example", strings.Repeat("\u00fc", 40) + ".example", strings.Repeat("\U0001F600", 50) + ".x", strings.Repeat("\U0001F600", 15) + "." + strings.Repeat("\u4e2d", 21) + ".example"},
 		"staticroute": {"10.0.0.0/8,192.0.2.1", "0.0.0.0/0,10.0.0.1", "2001:db8::/32,2001:db8::1", "10.0.0.0/8,2001:db8::1", "2001:db8::/32,10.0.0.1",
 			"::ffff:10.0.0.0/104,10.0.0.1", "10.0.0.0/8,::ffff:10.0.0.1", "10.0.0.0/33,10.0.0.1", "10.0.0.0/8", "10.0.0.0/8,10.0.0.1,extra", "10.0.0.5/8,10.0.0.1", ",", ""},
 		"nbp":       {"tftp://10.0.0.1/boot", "http://h/f?params=a%3Db", "https://h/" + long300, "ftp://h", "file:///x", "//nohost", "tftp://", "%zz", "", "http://h/f?params=", "tftp://" + long300 + "/x"},
